@@ -92,6 +92,8 @@ pub struct ConfigParts {
     /// `@deep` = input/sub/deep); `{CFGREL}` stands for the way from the configuration
     /// file's directory to the working directory and is filled in by `gen_invocation`
     pub convert_path_aliases: Option<String>,
+    /// `use_luau_configuration: false` on the current mode of `convert_require`
+    pub convert_no_luaurc: bool,
 }
 
 impl ConfigParts {
@@ -109,9 +111,14 @@ impl ConfigParts {
                 Some(style) => format!(",\"indexing_style\":\"{}\"", style),
                 None => String::new(),
             };
+            let current = if self.convert_no_luaurc {
+                "{\"name\":\"path\",\"use_luau_configuration\":false}"
+            } else {
+                "\"path\""
+            };
             let mut rules = vec![format!(
-                "{{\"rule\":\"convert_require\",\"current\":\"path\",\"target\":{{\"name\":\"roblox\",\"rojo_sourcemap\":\"{}\"{}}}}}",
-                sourcemap, indexing
+                "{{\"rule\":\"convert_require\",\"current\":{},\"target\":{{\"name\":\"roblox\",\"rojo_sourcemap\":\"{}\"{}}}}}",
+                current, sourcemap, indexing
             )];
             rules.extend(self.rules.clone().unwrap_or_default());
             fields.push(format!("\"rules\":[{}]", rules.join(",")));
@@ -207,6 +214,7 @@ pub fn gen_config_parts(rng: &mut Rng, bundle: Option<&str>) -> ConfigParts {
         convert_sourcemap: None,
         convert_indexing: None,
         convert_path_aliases: None,
+        convert_no_luaurc: false,
     }
 }
 
